@@ -865,3 +865,23 @@ Proof. intros v [<-|[<-|[<-|[]]]] H; try discriminate; vm_compute; reflexivity. 
 
 Print Assumptions C03_cmp_family_binary64_option.
 Print Assumptions C03_min_periods_above_window_binary64.
+
+(* (A13) ts_vzscore on EVERY numeric carrier and null dictionary (the binary64 execution instance included), both bodies:
+   the output is the carrier's NaN whenever the current element is null or the window holds fewer than
+   min(min_periods or w/2, w) non-null elements (cnt_valid: Proofs/Audit01.v) — the count and the "current element"
+   of the closure never drift, whatever the arithmetic does.  Axiom-free. *)
+From Tevec Require Import Proofs.Audit01.
+Theorem C03_zscore_nan_every_carrier :
+  forall (A : Type) (NA : Num A) (T : Type) (DT : IsNone T A) (body : bool) (w : nat) (mp : option nat) (xs : list T),
+    1 <= w ->
+    exists out, ts_vzscore body w mp xs = Done out /\ length out = length xs /\
+      forall i v, nth_error xs i = Some v ->
+        (not_none v = false \/ cnt_valid (win w i xs) < mp_eff mp w 0) -> nth_error out i = Some nnan.
+Proof. intros A NA T DT. exact (@zscore_nan_every_carrier A NA T DT). Qed.
+
+Example C03_example_zscore_nan_binary64 :      (* both premises occur: a short window (position 0), a NaN element (position 1) *)
+  exists a b, ts_vzscore (NA := NumF64) (DT := IsNoneF64) true 3 (Some 2) [1; nan; 2; 4]%float = Done [nan; nan; a; b]%float /\
+              PrimFloat.is_nan a = false /\ PrimFloat.is_nan b = false.
+Proof. do 2 eexists. split; [vm_compute; reflexivity|split; vm_compute; reflexivity]. Qed.
+
+Print Assumptions C03_zscore_nan_every_carrier.
